@@ -135,6 +135,30 @@ func runC15(c *runCfg) error {
 		}
 		emitMulti(c, "big_values", cases, sched, false)
 	}
+	// statements declared with WithParameters(ParseParameters(query)), the same query text prepared on several
+	// connections, some of them with parameter types prespecified in the Parse message: what one connection
+	// prespecifies shows up in no other connection's ParameterDescription
+	for r := 0; r < 8; r++ {
+		q := []byte([]string{"select $1, $2", "select ? where x = ?", "select $3"}[r%3])
+		np := []int{2, 2, 3}[r%3]
+		st := stmtT{id: 88, cols: textCols(1), poids: make([]int, np), prog: []opT{{kind: "row", vals: []valT{tv("r")}}, {kind: "complete", tag: []byte("SELECT 1")}}, ret: "nil"}
+		cfg := cfgT{limit: 1024, auth: "none", term: "none", ppDeclare: true, parse: []parseEntry{{query: q, stmts: []stmtT{st}}}}
+		var cases []*caseT
+		for k := 0; k < 3; k++ {
+			pm := mParse([]byte("s"), q, 0)
+			if k == r%3 {
+				pm = mParseOids([]byte("s"), q, []uint32{20, 23, 1043}[:1+(r+k)%3])
+			}
+			cs := lockCase(0, "pp_shared", cfg, startupMsg("user", fmt.Sprintf("user%d", k)), [][]byte{pm, mDescribe('S', []byte("s")), mSync(), mParse(nil, q, 0), mDescribe('S', nil), mSync()})
+			cs.id = fmt.Sprintf("%d.%d", 910000+r, k)
+			cases = append(cases, cs)
+		}
+		sched := g.scheduleLen(cases)
+		if r%2 == 1 {
+			sched = g.schedule(cases)
+		}
+		emitMulti(c, "pp_shared", cases, sched, false)
+	}
 	for id := 0; id < rounds; id++ {
 		cfg := g.baseCfg()
 		cfg.params = [][2][]byte{{[]byte("application_name"), []byte("verif")}}
